@@ -638,7 +638,9 @@ class ReferenceProperty(Property):
         return value, has_custom
 
 
-SELECTOR_REGEX = re.compile(r"^([a-z0-9_-]{3,250}(\.(\[\d+\]|[a-z0-9_-]{1,250}))*|id)\Z")
+# The first step names a property; later steps may be dictionary keys (e.g.
+# hashes.SHA-256, environment_variables.PATH), which may have capital letters.
+SELECTOR_REGEX = re.compile(r"^([a-z0-9_-]{3,250}(\.(\[\d+\]|[a-zA-Z0-9_-]{1,250}))*|id)\Z")
 
 
 class SelectorProperty(Property):
